@@ -125,6 +125,27 @@ pub fn run(ctx: &mut Ctx) {
             let t = TextC::from(d);
             ensure_eq!(t.to_bits(), letter, "text_from_dna", "text::Dna::from(Dna::{})", letter as char);
         }
+        // the compile-time literal macros carry their own copies of the tables
+        let lit = iupac!("ACGTRYSWKMBDHVN-");
+        for (i, ch) in "ACGTRYSWKMBDHVN-".bytes().enumerate() {
+            ensure_eq!(Some(lit.nth(i)), IupacC::try_from_ascii(ch), "iupac_macro_table", "symbol {i} of iupac!(\"ACGTRYSWKMBDHVN-\") vs Iupac::try_from_ascii('{}')", ch as char);
+            ensure_eq!(lit.nth(i).to_bits(), crate::model::set_of_letter(ch), "iupac_macro_table", "code of '{}' in an iupac! literal", ch as char);
+        }
+        let lit = dna!("ACGT");
+        for (i, ch) in "ACGT".bytes().enumerate() {
+            ensure_eq!(Some(lit.nth(i)), DnaC::try_from_ascii(ch), "dna_macro_table", "symbol {i} of dna!(\"ACGT\")");
+        }
+        // conversions that duplicate the tables
+        for it in IupacC::items() {
+            ensure_eq!(u8::from(it), it.to_bits(), "u8_from_iupac", "u8::from(Iupac::{it:?})");
+        }
+        for it in AminoC::items() {
+            ensure_eq!(u8::from(it), it.to_bits(), "u8_from_amino", "u8::from(Amino::{it:?})");
+            ensure_eq!(it.to_string(), it.to_char().to_string(), "amino_display", "Display for Amino::{it:?}");
+        }
+        for it in TextC::items() {
+            ensure_eq!(u8::from(it), it.to_bits(), "u8_from_text", "u8::from(text::Dna)");
+        }
         Ok(Pass::new(true))
     });
     ctx.require_class("alt_pattern");
